@@ -24,7 +24,11 @@ def split_out(path, rd):
         for line in open(path):
             if line.startswith("Q "):
                 fq.write(line)
-            elif line.startswith("T "):
+            elif line.startswith("T ") or line.startswith("U "):
+                ft.write(line)
+            elif line.startswith("V "):
+                # the event queue dumps are both compared with the model and checked by the monitor
+                fq.write(line)
                 ft.write(line)
     return q, t
 
@@ -35,8 +39,8 @@ def run_one(hbin, driver, rd, line):
     with open(p, "w") as f:
         f.write(line + "\n")
     out = subprocess.run([hbin, "run", p], stdout=subprocess.PIPE, stderr=subprocess.PIPE, timeout=120).stdout.decode()
-    ql = [l for l in out.split("\n") if l.startswith("Q ")]
-    tl = [l for l in out.split("\n") if l.startswith("T ")]
+    ql = [l for l in out.split("\n") if l.startswith("Q ") or l.startswith("V ") or l.startswith("U ")]
+    tl = [l for l in out.split("\n") if l.startswith("T ") or l.startswith("V ") or l.startswith("U ")]
     if not tl:
         return "", "T ? crash"
     sp = subprocess.run([driver, "spec"], input=(tl[0] + "\n").encode(), stdout=subprocess.PIPE, timeout=120).stdout.decode()
@@ -76,7 +80,7 @@ def main(tier, replay=None):
                 l = l.strip()
                 if l.startswith("case: "):
                     l = l[6:]
-                if l.startswith("Q "):
+                if l.startswith("Q ") or l.startswith("V ") or l.startswith("U "):
                     f.write(l + "\n")
     else:
         subprocess.run([hbin, "gen", c.tier, str(c.seed), rd], check=True)
@@ -85,7 +89,7 @@ def main(tier, replay=None):
         extra = []
         if os.path.isdir(corp):
             for fn in sorted(os.listdir(corp)):
-                extra += [l for l in open(os.path.join(corp, fn)).read().split("\n") if l.startswith("Q ")]
+                extra += [l for l in open(os.path.join(corp, fn)).read().split("\n") if l[:2] in ("Q ", "V ", "U ")]
         if extra:
             body = open(cases).read()
             with open(cases, "w") as f:
@@ -102,7 +106,7 @@ def main(tier, replay=None):
     for line in open(spec_out):
         f = line.rstrip("\n").split(" ")
         if len(f) >= 3:
-            spec["Q " + f[1]] = f[2:]
+            spec[("Q " if f[0] == "T" else f[0] + " ") + f[1]] = f[2:]
     case_by_key = {}
     for line in open(cases):
         line = line.rstrip("\n")
@@ -113,6 +117,8 @@ def main(tier, replay=None):
     # --- monitor verdicts (the extracted property on the implementation's snapshots)
     mon_viol = 0
     by_clause = {}
+    e2e_reruns = {}
+    e2e_diffs = []
     for key, cl in case_by_key.items():
         v = spec.get(key)
         if v is None:
@@ -121,17 +127,37 @@ def main(tier, replay=None):
             continue
         if v[0] == "ok":
             continue
+        if key.startswith("U "):
+            # real-clock end-to-end case: a verdict counts only if it repeats (scheduling stalls do not)
+            verdicts = [v]
+            for _ in range(2):
+                _, again = run_one(hbin, driver, rd, cl)
+                verdicts.append(again.split(" ")[2:])
+                if verdicts[-1] and verdicts[-1][0] == "ok":
+                    break
+            e2e_reruns[key] = [" ".join(x) for x in verdicts]
+            if any(x and x[0] == "ok" for x in verdicts):
+                continue
+            kinds = set(x[0] for x in verdicts if x)
+            if kinds == {"DIFF"}:
+                e2e_diffs.append(key)
+                continue
+            v = next(x for x in verdicts if x and x[0] != "DIFF")
+            spec[key] = v
         clause = v[1] if len(v) > 1 else "unknown"
         by_clause.setdefault(clause, []).append(key)
     for clause, keys in sorted(by_clause.items()):
         keys.sort(key=lambda k: len(case_by_key[k]))
         mon_viol += len(keys)
         key = keys[0]
-        small = shrink(hbin, driver, rd, case_by_key[key], clause)
+        small = shrink(hbin, driver, rd, case_by_key[key], clause) if key.startswith("Q ") else case_by_key[key]
         ql, verdict = run_one(hbin, driver, rd, small)
         mline = subprocess.run([driver], input=(small + "\n").encode(), stdout=subprocess.PIPE).stdout.decode().strip()
+        where = {"Q": "real Subscriptions<4> table driven through the hooks",
+                 "V": "real Events<256> queue driven through the hooks",
+                 "U": "two real Matter nodes, real subscribe path and reporter task, scripted subscriber and network"}[key[0]]
         c.violation(clause, "\n".join([
-            "property C13 fails on the implementation (real Subscriptions<4> table driven through the hooks): clause " + clause,
+            "property C13 fails on the implementation (%s): clause %s" % (where, clause),
             "%d generated case(s) fail this clause; smallest, shrunk:" % len(keys),
             "case: " + small,
             "monitor verdict (extracted property on the implementation's snapshots): " + verdict,
@@ -140,10 +166,19 @@ def main(tier, replay=None):
             "original case: " + case_by_key[key],
             "original verdict: " + " ".join(spec[key]),
             "ops: C change, E event, S subscribe(priming ctx), R report reaches a path, X report ends o|f|d, B report(now), P purge, M remove, W expiry sweep, K persist, Z restart",
+            "U steps: s subscribe, a/A answer priming chunk(s), c change, e event, r wait for a report, k/K answer report chunk(s), n refuse, m drop datagrams, x go silent, q quiesce (see harness/src/c13_e2e.rs)",
+            "re-runs of an end-to-end case: %s" % e2e_reruns.get(key, "-"),
             "replay: bin/check C13 quick --replay <this file>"]))
 
     # --- correspondence
-    diffs = [key for key in case_by_key if impl.get(key) != model.get(key)]
+    diffs = [key for key in case_by_key if not key.startswith("U ") and impl.get(key) != model.get(key)]
+    if e2e_diffs and not c.violations:
+        lines = ["correspondence corr:C13/e2e: on %d end-to-end case(s) the model's prediction (report contents / table state) "
+                 "differs from what was observed, repeatably; the end-to-end property itself (learned every change, subscription kept, "
+                 "events) holds on them." % len(e2e_diffs), ""]
+        for key in e2e_diffs[:5]:
+            lines += ["case : " + case_by_key[key], "verdicts: %s" % e2e_reruns.get(key), ""]
+        c.violation("corr-e2e", "\n".join(lines))
     if diffs and not c.violations:
         lines = ["correspondence corr:C13 broke: model and implementation disagree on %d of %d cases;" % (len(diffs), len(case_by_key)),
                  "the monitor (extracted invariant and timing clauses on the implementation's own snapshots) found no failing run.",
@@ -170,6 +205,8 @@ def main(tier, replay=None):
     nt = set()
     n_steps = 0
     for key, cl in case_by_key.items():
+        if not key.startswith("Q "):
+            continue
         ops = cl.split(" ")[2:]
         outs = [t.split("#")[0] for t in impl.get(key, "").split(" | ")[0].split(" ")[2:]]
         n_steps += len(ops)
@@ -215,6 +252,34 @@ def main(tier, replay=None):
             hit("coalesced_by_overflow")
         if sel and chg:
             nt.add(" ".join(ops))
+    for key, cl in case_by_key.items():
+        if key.startswith("V "):
+            hit("event_queue_case")
+            il = impl.get(key, "")
+            if " !" in il:
+                hit("event_too_large_refused")
+            if "]i[" in il and any(("i[" in t and not "i[]" in t) for t in il.split(" ")[2:]):
+                hit("event_promoted_to_info_buffer")
+            if any(not t.startswith("+c[]") and not t.startswith("!c[]") for t in il.split(" ")[2:]):
+                hit("event_promoted_to_critical_buffer")
+        elif key.startswith("U "):
+            hit("e2e_case")
+            steps = cl.split(" ")[3:]
+            verdict = spec.get(key, ["?"])
+            if verdict[0] == "KNOWN":
+                hit("e2e_event_evicted")
+            if any(x.startswith("s:") for x in steps[1:]) and "r:100" in steps:
+                hit("e2e_subscribe_while_report_in_flight")
+            if any(x.startswith("m:") for x in steps):
+                hit("e2e_report_retransmitted")
+            if "x" in steps:
+                hit("e2e_subscriber_silent_retry")
+            if "n" in steps:
+                hit("e2e_refused_by_subscriber")
+            if steps and steps[0].startswith("s:") and steps[0].split(":")[3] == "16777215":
+                hit("e2e_chunked_priming")
+            if any(x.startswith("s:1:") for x in steps):
+                hit("e2e_min_interval_1s")
     n_out = n_canc = 0
     W = "4294967295"
 
@@ -231,6 +296,8 @@ def main(tier, replay=None):
         return nxt, sw, xw
 
     for line in open(trace_in):
+        if not line.startswith("T "):
+            continue
         seen_o = seen_c = False
         prev = None
         for tok in line.split(" ")[2:]:
@@ -285,7 +352,11 @@ def main(tier, replay=None):
                      "purge_with_context_outstanding(cases)", "in_flight_cancelled(cases)",
                      "overflow_promote_level1", "overflow_promote_level2", "overflow_global_wildcard",
                      "overflow_global_with_caught_up_and_lagging", "overflow_new_change_covered_after_promotion",
-                     "record_refresh_same_entry", "record_wildcard_absorbs"]
+                     "record_refresh_same_entry", "record_wildcard_absorbs",
+                     "event_queue_case", "event_too_large_refused", "event_promoted_to_info_buffer",
+                     "event_promoted_to_critical_buffer", "e2e_case", "e2e_event_evicted",
+                     "e2e_subscribe_while_report_in_flight", "e2e_report_retransmitted", "e2e_subscriber_silent_retry",
+                     "e2e_refused_by_subscriber", "e2e_chunked_priming", "e2e_min_interval_1s"]
     c.cov.update({
         "evaluations": len(case_by_key),
         "operations_run": n_steps,
@@ -302,6 +373,9 @@ def main(tier, replay=None):
         "monitor_cases": len(spec),
         "monitor_violations": mon_viol,
         "disagreements_checked": len(diffs),
+        "e2e_cases": sum(1 for k in case_by_key if k.startswith("U ")),
+        "e2e_prediction_differences": len(e2e_diffs),
+        "e2e_rerun": e2e_reruns,
         "exhaustive": False,
     })
     c.finish(level="proof",
